@@ -71,8 +71,8 @@ PROPS["C09"] = {
         H("verif_c09::proofs::login_serverbound_small", desc="EncryptionResponse, login CookieResponse (None/Some), LoginPluginResponse, LoginAcknowledged", bounds="array lengths ≤3"),
         H("verif_c09::proofs::configuration_clientbound_fields", desc="config CookieRequest, KeepAlive, Ping, StoreCookie, Transfer", bounds="string lengths {0,3}; all u64/i32/u16"),
         H("verif_c09::proofs::configuration_disconnect_packet", desc="configuration Disconnect (plain text component)", bounds="reason lengths {0,3}, first byte literal", mem_gb=16),
-        H("verif_c09::proofs::add_resource_pack_packet", desc="AddResourcePack without prompt", bounds="string lengths ≤2", mem_gb=16),
-        H("verif_c09::proofs::add_resource_pack_packet_with_prompt", desc="AddResourcePack with prompt text component", bounds="string lengths ≤2", mem_gb=16),
+        H("verif_c09::proofs::add_resource_pack_packet", tier="thorough", desc="AddResourcePack without prompt", bounds="string lengths ≤2", mem_gb=30, timeout_s=1800),
+        H("verif_c09::proofs::add_resource_pack_packet_with_prompt", tier="thorough", desc="AddResourcePack with prompt text component", bounds="string lengths ≤2", mem_gb=30, timeout_s=1800),
         H("verif_c09::proofs::empty_packets_and_ids", desc="14 field-less configuration packets: id table, zero bytes, zero consumption", bounds="-"),
         H("verif_c09::proofs::client_information_packet", desc="ClientInformation: all fields, every enum variant", bounds="locale lengths {0,2,5}"),
         H("verif_c09::proofs::configuration_serverbound_fields", desc="config KeepAlive, Pong, ResourcePackResponse (all 8 results)", bounds="all u64/i32/u128"),
@@ -221,3 +221,16 @@ PROPS["C18"] = {
     ],
 }
 NOT_APPLICABLE.pop("C18", None)
+
+
+PROPS["C12"] = {
+    "level_text": "Bounded model checking of the real MojangAdapter::authenticate (erased copy) against a recording reqwest model: for every valid UTF-8 claimed name of 1 or 3 bytes (all of '&', '=', '#', '?', '%', '+', space, '/', control characters) and every 16-byte secret, the complete request parsed by a reference URL/query parser has the constant has-joined path and exactly the parameters username = claimed name and serverId = the connection's hash; exactly one request is made.",
+    "level_note": "Trusted: Kani/CBMC; erasure R1/R13/R15; that reqwest's RequestBuilder::query percent-encodes the pairs it is given (third-party; pairs are recorded as given); minecraft_hash stubbed by a cheap model (its correctness is C11's subject). Outside: names longer than 3 bytes; the response handling.",
+    "assumptions": ["reqwest modelled: URL and query pairs recorded, never sent", "minecraft_hash stubbed"],
+    "explanation": "",
+    "harnesses": [
+        H("verif_c12::proofs::request_parameters_name_1", pkg="passage-adapters-http", desc="request = endpoint + [username=name, serverId=hash] for every 1-byte name", bounds="name 1 byte, any secret", timeout_s=1800, mem_gb=16, no_native_replay="minecraft_hash is stubbed under Kani"),
+        H("verif_c12::proofs::request_parameters_name_3", pkg="passage-adapters-http", desc="same for every valid UTF-8 name of 3 bytes", bounds="name 3 bytes", timeout_s=1800, mem_gb=16, no_native_replay="minecraft_hash is stubbed under Kani"),
+    ],
+}
+PROPS["C12"]["claimed"] = False
